@@ -113,6 +113,11 @@ func execSpec(c *chk.Ctx, root string, s *spec.Spec, cfg Cfg, behav vproto.Behav
 	bin := c.Bin
 	soft, hard := 25*time.Second, 120*time.Second
 	env := cfg.env()
+	if c.Prop == "C11" && len(root) > 0 && root[len(root)-1]%2 == 0 {
+		// half of C11's histories (all runs of one case alike) happen in a time zone that is not UTC: records written and
+		// read back, embedded and on disk, carry an offset
+		env["TZ"] = "Asia/Kolkata"
+	}
 	if cfg.Race {
 		bin = c.RaceBin
 		soft, hard = 90*time.Second, 300*time.Second
